@@ -77,6 +77,15 @@ func c04Recover(c *core.Ctx, r *core.Reporter) {
 		r.Unknown("ExecutePlan.worker", ep.Pos(), "worker goroutine not found")
 		return
 	}
+	// the predicates planDirectives builds: its literals, or methods / helpers extracted from it
+	gateFns := map[*ssa.Function]bool{}
+	if pd := c.Func("", "planDirectives"); pd != nil {
+		for _, g := range c.Region(pd) {
+			if g != pd {
+				gateFns[g] = true
+			}
+		}
+	}
 	// reach from the worker without entering field-recover frames
 	rc := &core.ReachCfg{Roots: []*ssa.Function{worker}, OnlyLib: c.IsLib,
 		BlockNode: func(fn *ssa.Function) bool {
@@ -85,7 +94,7 @@ func c04Recover(c *core.Ctx, r *core.Reporter) {
 			// @skip/@include predicates (literals of planDirectives) coerce only the built-in Boolean
 			// `if` argument: no user scalar code can run there although the call graph, which does
 			// not distinguish scalar instances, links Scalar.ParseLiteral to every ParseLiteralFn
-			if fn.Parent() != nil && fnKey(fn) == "planDirectives" {
+			if gateFns[fn] {
 				return true
 			}
 			return fieldRecoverHandler(c, fn) != nil || fn == c.Func("", "getVariableValues")
